@@ -85,7 +85,7 @@ func (t *Translator) Harness(module string) ([]byte, error) {
 		if ranges == nil {
 			ranges = t.cfg.Harness.Ranges[f.CoqName]
 		}
-		fmt.Fprintf(&body, "\nfunc go2coqH_%s(dir, req string, seed uint64, n int) (int, int, error) {\n", f.CoqName)
+		fmt.Fprintf(&body, "\nfunc go2coqH_%s(w *bufio.Writer, seed uint64, n int) (int, int) {\n", f.CoqName)
 		// descriptors
 		fmt.Fprintf(&body, "\tdescs := []go2coqDesc{\n")
 		for _, p := range f.Params {
@@ -96,16 +96,20 @@ func (t *Translator) Harness(module string) ([]byte, error) {
 			fmt.Fprintf(&body, "\t\t%s, // %s\n", descFor(p.Ty, p.IsNat, r), p.Name)
 		}
 		fmt.Fprintf(&body, "\t}\n")
-		// chk definition
-		var sig, args strings.Builder
+		// chk definition: one case is the tuple (args..., expected ok, expected value)
+		var args strings.Builder
+		var pats, ctys []string
 		for _, p := range f.Params {
 			ty := p.Ty.coq()
 			if p.IsNat {
 				ty = "nat"
 			}
-			fmt.Fprintf(&sig, " (%s : %s)", "a_"+p.Name, ty)
+			pats = append(pats, "a_"+p.Name)
+			ctys = append(ctys, ty)
 			fmt.Fprintf(&args, " a_%s", p.Name)
 		}
+		pats = append(pats, "g2c_eok", "g2c_e")
+		ctys = append(ctys, "bool", f.valueType())
 		var resNames, expNames, eqs []string
 		for i, r := range f.Results {
 			rn, en := fmt.Sprintf("r%d", i), fmt.Sprintf("e%d", i)
@@ -133,9 +137,10 @@ func (t *Translator) Harness(module string) ([]byte, error) {
 		} else {
 			eq = destr(resNames, "("+f.CoqName+args.String()+")") + destr(expNames, "g2c_e") + eqAll
 		}
-		chk := fmt.Sprintf("Definition g2c_chk%s (g2c_eok : bool) (g2c_e : %s) : bool :=\n  if g2c_eok then andb (%s%s) (%s)\n  else negb (%s%s).\n",
-			sig.String(), f.valueType(), f.OkName, args.String(), eq, f.OkName, args.String())
-		fmt.Fprintf(&body, "\tck, err := go2coqOpen(dir, %q, req, %q)\n\tif err != nil {\n\t\treturn 0, 0, err\n\t}\n", f.CoqName, chk)
+		caseTy := tupleType(ctys)
+		chk := fmt.Sprintf("Definition g2c_chk (g2c_c : %s) : bool :=\n  let '%s := g2c_c in\n  if g2c_eok then andb (%s%s) (%s)\n  else negb (%s%s).\n",
+			caseTy, tupleTerm(pats), f.OkName, args.String(), eq, f.OkName, args.String())
+		fmt.Fprintf(&body, "\tck := go2coqOpen(w, %q, %q, %q)\n", f.CoqName, caseTy, chk)
 		fmt.Fprintf(&body, "\tplan := go2coqNewPlan(descs, n, %d)\n\trng := go2coqNewRng(seed, %q)\n", fuel, f.CoqName)
 		fmt.Fprintf(&body, "\tfor i := 0; i < n; i++ {\n\t\tvals := plan.Case(rng, i)\n")
 
@@ -315,11 +320,13 @@ func (t *Translator) Harness(module string) ([]byte, error) {
 		}
 	}
 	fmt.Fprintf(&out, ")\n\nvar _ = strings.Join\n\n")
-	fmt.Fprintf(&out, "// Go2coqHarness writes <dir>/Check_<F>.v for every translated function and\n// <dir>/checks.txt with one line \"<F> <cases> <panicking cases>\" per function.\n")
-	fmt.Fprintf(&out, "func Go2coqHarness(dir, req string, seed uint64, n int) error {\n\tvar idx strings.Builder\n")
+	fmt.Fprintf(&out, "// Go2coqHarness runs every translated function on n generated argument tuples and\n// writes the Coq check files <dir>/Check_<k>.v (k < groups; function i goes to\n// file i %% groups) plus <dir>/checks.txt with one line\n// \"<F> <file> <cases> <panicking cases>\" per function.  Compiling Check_<k>.v\n// prints one line \"RESULT_<F> = (<cases>%%nat, [])\" per function; a non-empty list\n// holds the indices of the first mismatching cases.\n")
+	fmt.Fprintf(&out, "func Go2coqHarness(dir, req string, seed uint64, n int, groups int) error {\n\tif groups < 1 {\n\t\tgroups = 1\n\t}\n")
+	fmt.Fprintf(&out, "\tfs, err := go2coqFiles(dir, req, groups)\n\tif err != nil {\n\t\treturn err\n\t}\n\tvar idx strings.Builder\n\tk := 0\n")
 	for _, n := range names {
-		fmt.Fprintf(&out, "\tif c, p, err := go2coqH_%s(dir, req, seed, n); err != nil {\n\t\treturn err\n\t} else {\n\t\tfmt.Fprintf(&idx, \"%s %%d %%d\\n\", c, p)\n\t}\n", n, n)
+		fmt.Fprintf(&out, "\t{\n\t\tc, p := go2coqH_%s(fs[k%%groups].w, seed, n)\n\t\tfmt.Fprintf(&idx, \"%s Check_%%d.v %%d %%d\\n\", k%%groups, c, p)\n\t\tk++\n\t}\n", n, n)
 	}
+	fmt.Fprintf(&out, "\tfor _, f := range fs {\n\t\tif err := f.close(); err != nil {\n\t\t\treturn err\n\t\t}\n\t}\n")
 	fmt.Fprintf(&out, "\treturn os.WriteFile(filepath.Join(dir, \"checks.txt\"), []byte(idx.String()), 0o644)\n}\n")
 	out.Write(body.Bytes())
 	out.WriteString(harnessRuntime)
@@ -730,34 +737,58 @@ func go2coqArgs(descs []go2coqDesc, vals []go2coqVal) string {
 	for i := range descs {
 		parts[i] = go2coqArg(descs[i], vals[i])
 	}
-	return strings.Join(parts, " ")
+	return strings.Join(parts, ", ")
+}
+
+type go2coqFile struct {
+	f *os.File
+	w *bufio.Writer
+}
+
+func (f *go2coqFile) close() error {
+	if err := f.w.Flush(); err != nil {
+		return err
+	}
+	return f.f.Close()
+}
+
+func go2coqFiles(dir, req string, groups int) ([]*go2coqFile, error) {
+	var out []*go2coqFile
+	for k := 0; k < groups; k++ {
+		f, err := os.Create(filepath.Join(dir, fmt.Sprintf("Check_%d.v", k)))
+		if err != nil {
+			return nil, err
+		}
+		g := &go2coqFile{f: f, w: bufio.NewWriter(f)}
+		fmt.Fprintf(g.w, "From Coq Require Import ZArith Bool List.\nFrom V Require Import lib.GoInt.\n%s\nImport ListNotations.\nOpen Scope Z_scope.\n\n", req)
+		fmt.Fprintf(g.w, "Fixpoint g2c_bad (i : nat) (l : list bool) : list nat :=\n  match l with nil => nil | b :: l' => if b then g2c_bad (S i) l' else i :: g2c_bad (S i) l' end.\n")
+		out = append(out, g)
+	}
+	return out, nil
 }
 
 type go2coqCheck struct {
-	f      *os.File
 	w      *bufio.Writer
+	name   string
+	caseTy string
 	n      int
 	panics int
 	chunks int
 	open   bool
 }
 
-func go2coqOpen(dir, name, req, chk string) (*go2coqCheck, error) {
-	f, err := os.Create(filepath.Join(dir, "Check_"+name+".v"))
-	if err != nil {
-		return nil, err
-	}
-	c := &go2coqCheck{f: f, w: bufio.NewWriter(f)}
-	fmt.Fprintf(c.w, "From Coq Require Import ZArith Bool List.\nFrom V Require Import lib.GoInt.\n%s\nImport ListNotations.\nOpen Scope Z_scope.\n\n%s\n", req, chk)
-	return c, nil
+func go2coqOpen(w *bufio.Writer, name, caseTy, chk string) *go2coqCheck {
+	c := &go2coqCheck{w: w, name: name, caseTy: caseTy}
+	fmt.Fprintf(w, "\nModule G2C_%s.\n%s", name, chk)
+	return c
 }
 
 func (c *go2coqCheck) Case(args string, ok bool, exp string) {
-	if c.n%100 == 0 {
+	if c.n%50 == 0 {
 		if c.open {
 			fmt.Fprintf(c.w, "\n].\n")
 		}
-		fmt.Fprintf(c.w, "Definition g2c_c%d : list bool := [\n", c.chunks)
+		fmt.Fprintf(c.w, "Definition g2c_c%d : list %s := [\n", c.chunks, c.caseTy)
 		c.chunks++
 		c.open = true
 	} else {
@@ -766,31 +797,26 @@ func (c *go2coqCheck) Case(args string, ok bool, exp string) {
 	if !ok {
 		c.panics++
 	}
-	sp := ""
 	if args != "" {
-		sp = " "
+		args += ", "
 	}
-	fmt.Fprintf(c.w, "  g2c_chk%s%s %s %s", sp, args, go2coqLitB(ok), exp)
+	fmt.Fprintf(c.w, "(%s%s, %s)", args, go2coqLitB(ok), exp)
 	c.n++
 }
 
-func (c *go2coqCheck) Close() (int, int, error) {
+func (c *go2coqCheck) Close() (int, int) {
 	if c.open {
 		fmt.Fprintf(c.w, "\n].\n")
 	}
-	fmt.Fprintf(c.w, "Definition g2c_results : list bool := ")
+	fmt.Fprintf(c.w, "Definition g2c_results : list bool := map g2c_chk (")
 	for i := 0; i < c.chunks; i++ {
 		fmt.Fprintf(c.w, "g2c_c%d ++ ", i)
 	}
-	fmt.Fprintf(c.w, "[].\n")
-	fmt.Fprintf(c.w, "Fixpoint g2c_bad (i : nat) (l : list bool) : list nat :=\n  match l with nil => nil | b :: l' => if b then g2c_bad (S i) l' else i :: g2c_bad (S i) l' end.\n")
-	fmt.Fprintf(c.w, "Definition g2c_mism : list nat := g2c_bad O g2c_results.\n")
-	fmt.Fprintf(c.w, "(* number of cases, first mismatching case indices (must be []) *)\n")
-	fmt.Fprintf(c.w, "Eval vm_compute in (length g2c_results, firstn 20 g2c_mism).\n")
-	fmt.Fprintf(c.w, "Goal g2c_mism = []. Proof. vm_compute. reflexivity. Qed.\n")
-	if err := c.w.Flush(); err != nil {
-		return 0, 0, err
-	}
-	return c.n, c.panics, c.f.Close()
+	fmt.Fprintf(c.w, "[]).\n")
+	fmt.Fprintf(c.w, "End G2C_%s.\n", c.name)
+	fmt.Fprintf(c.w, "(* number of cases, indices of the first mismatching cases (must be []) *)\n")
+	fmt.Fprintf(c.w, "Definition RESULT_%s := Eval vm_compute in (length G2C_%s.g2c_results, firstn 20 (g2c_bad O G2C_%s.g2c_results)).\n", c.name, c.name, c.name)
+	fmt.Fprintf(c.w, "Print RESULT_%s.\n", c.name)
+	return c.n, c.panics
 }
 `
